@@ -144,6 +144,10 @@ pub struct Sim {
     pub seq: u64,
     pub log: Vec<String>,
     pub step_cap: u64,
+    /// only every n-th scheduling point of the library's atomics actually yields (1 = all);
+    /// runs with thousands of items use a sparser grid to stay affordable
+    pub yield_every: u32,
+    yield_phase: u32,
     pub shim_rng: SplitMix,
     handles: Vec<JoinHandle<()>>,
 }
@@ -174,6 +178,8 @@ impl Default for Sim {
             seq: 0,
             log: vec![],
             step_cap: u64::MAX,
+            yield_every: 1,
+            yield_phase: 0,
             shim_rng: SplitMix(0),
             handles: vec![],
         }
@@ -370,6 +376,23 @@ pub fn sched_point(site: Site) {
     // be the one that is reported
     if !active() || QUIET.with(|q| q.get()) > 0 || std::thread::panicking() {
         return;
+    }
+    if matches!(site, Site::Loc(_)) {
+        let skip = with(|s| {
+            if s.yield_every <= 1 {
+                return false;
+            }
+            s.yield_phase = (s.yield_phase + 1) % s.yield_every;
+            if s.yield_phase != 0 {
+                s.stats.steps += 1;
+                s.now += s.step_cost;
+                return true;
+            }
+            false
+        });
+        if skip {
+            return;
+        }
     }
     set_site(site);
     shuttle::thread::yield_now();
